@@ -395,8 +395,22 @@ func (s *Syncer) addPeer(p *Peer) error {
 	}
 
 	s.mu.Lock()
+	defer s.mu.Unlock()
+	if p.Inbound {
+		// allowConnect counted the peers before the handshake; count again now
+		// that the peer is actually added, otherwise simultaneous handshakes
+		// all pass the check
+		var in int
+		for _, other := range s.peers {
+			if other.Inbound {
+				in++
+			}
+		}
+		if in >= s.config.MaxInboundPeers {
+			return errors.New("too many inbound peers")
+		}
+	}
 	s.peers[p.t.Addr] = p
-	s.mu.Unlock()
 	return nil
 }
 
